@@ -95,15 +95,25 @@ class World(object):
 
     def get(self, sc, ndims, cfgseed, payload):
         from amr_kitchen import PlotfileCooker
+        import shutil
         key = json.dumps([sc["fields"], sc["levels"], ndims, cfgseed, payload], sort_keys=True)
         if key in self.cache:
             return self.cache[key]
-        if len(self.cache) > 400:
-            self.cache.clear()
+        # a bounded number of live inputs; the PATH of an evicted one is used again for the next new input, so that the same path
+        # holds different plotfiles over time (a cache keyed by path, offset or file name would hand out stale data)
+        if not hasattr(self, "free"):
+            self.free, self.order = [], []
+        if len(self.order) >= 24:
+            old = self.order.pop(0)
+            dold = self.cache.pop(old)[0]
+            shutil.rmtree(os.path.dirname(dold), ignore_errors=True)
+            self.free.append(dold)
         cfg_ = gamma.Config.draw(random.Random(cfgseed), ndims=ndims, payload=payload)
-        ap = compare.ap_from_scenario("A", sc["fields"], sc["levels"], ndims=ndims)
-        d = os.path.join(self.chk.tmp(), "in")
-        os.makedirs(os.path.dirname(d))
+        # box cross-sections: 3 x 2 cells, or one cell thick along the last axis (2-D: one cell high)
+        cross = [(3, 2), (3, 1), (1, 2), (2, 1)][cfgseed % 4]
+        ap = compare.ap_from_scenario("A", sc["fields"], sc["levels"], ndims=ndims, cross=cross)
+        d = self.free.pop() if self.free else os.path.join(self.chk.tmp(), "in")
+        os.makedirs(os.path.dirname(d), exist_ok=True)
         reg = gamma.write_plotfile(d, ap, cfg_)
         A = alpha.abstract(d, reg)
         if alpha.wellformed(A):
@@ -111,6 +121,7 @@ class World(object):
         with core.quiet():
             pck = PlotfileCooker(d)
         self.cache[key] = (d, ap, reg, pck)
+        self.order.append(key)
         return self.cache[key]
 
 
@@ -334,6 +345,11 @@ def reuse_phase(chk, scenarios, world):
                 obs = {"k": "ok", "one": False, "boxes": [abs_box(a, ap, reg) for a in r]}
             else:
                 obs = {"k": "other"}
+            # what the caller does with the arrays it was given is its own business: overwrite them; a later selection must
+            # still return what is on disk (no array handed out twice)
+            for a in ([r] if isinstance(r, np.ndarray) else (r if isinstance(r, (list, tuple)) else [])):
+                if isinstance(a, np.ndarray) and a.flags.writeable:
+                    a[...] = np.nan
             diff = core.first_diff(expect_json(sc["expect"]), obs)
             if diff:
                 v = ("selection %d of %d through one selector / stream object, pck[%r][%r][%r]: %s (earlier selections on the same "
